@@ -294,4 +294,28 @@ def nullable : P → Bool
   | .list o _ _ c => nullable o && nullable c
   | .uint _ => false | .int _ => false
 
+def skNullable : Sk → Bool
+  | .eps => true | .cset _ => false | .lit _ => false | .rep _ => true
+  | .seq a b => skNullable a && skNullable b
+
+/-- well-formed skipper: no repetition of a nullable skipper -/
+def SkWF : Sk → Prop
+  | .rep a => SkWF a ∧ skNullable a = false
+  | .seq a b => SkWF a ∧ SkWF b
+  | _ => True
+
+/-- well-formed **non-recursive** parser: no `ref`, no repetition (`*`, `+`, the loops inside
+`separator` / `list`) of a nullable body -/
+def WF0 : P → Prop
+  | .ref _ => False
+  | .seq a b => WF0 a ∧ WF0 b
+  | .alt a b => WF0 a ∧ WF0 b
+  | .rep a => WF0 a ∧ nullable a = false
+  | .plus a => WF0 a ∧ nullable a = false
+  | .sep a s => WF0 a ∧ WF0 s ∧ (nullable s && nullable a) = false
+  | .list o a s c => WF0 o ∧ WF0 a ∧ WF0 s ∧ WF0 c ∧ (nullable s && nullable a) = false
+  | .opt a => WF0 a | .not a => WF0 a | .fatal a => WF0 a | .lexeme a => WF0 a
+  | .conv _ a => WF0 a | .convIf _ a => WF0 a | .ignore a => WF0 a | .named a => WF0 a
+  | _ => True
+
 end Fcppt.C02
